@@ -46,6 +46,7 @@ type Prop struct {
 	Stubs       []string                                                  // components that were stubs
 	Rule        string
 	Assumptions []string
+	Probes      []string // counters that a healthy batch is expected to hit; one stuck at zero is reported as a gap
 }
 
 // ReplayFile is what a violation is stored as.
@@ -83,6 +84,7 @@ type WorkerReport struct {
 	Stubs       []string          `json:"stubs"`
 	Rule        string            `json:"rule"`
 	Assumptions []string          `json:"assumptions"`
+	Probes      []string          `json:"probes"`
 	ShrinkRuns  int               `json:"shrink_runs"`
 	Reruns      int               `json:"reruns"`           // scenarios re-executed at the end of the worker, out of their original order
 	RerunDiffs  int               `json:"rerun_mismatches"` // ... whose event-log hash differed (state leaking between runs)
@@ -186,7 +188,7 @@ func Main(t *testing.T, p Prop) {
 	h := sha256.Sum256([]byte(p.ID))
 	wseed := splitmix(baseSeed ^ splitmix(uint64(worker)+1) ^ uint64(h[0])<<8 ^ uint64(h[1]))
 	rep := &WorkerReport{Property: p.ID, Worker: worker, Seed: wseed, Counts: map[string]int{}, Known: map[string]int{},
-		KnownDesc: map[string]string{}, Real: p.Real, Stubs: p.Stubs, Rule: p.Rule, Assumptions: p.Assumptions}
+		KnownDesc: map[string]string{}, Real: p.Real, Stubs: p.Stubs, Rule: p.Rule, Assumptions: p.Assumptions, Probes: p.Probes}
 	hashes := map[string]struct{}{}
 	pairs := map[uint64]struct{}{}
 	start := time.Now()
@@ -466,4 +468,15 @@ func WaitBlockedOrDone(s *simrt.Sim, ts ...*simrt.Task) {
 		}
 		return true
 	}, "harness:wait-blocked")
+}
+
+// Thorough reports whether the thorough tier was requested: generators widen their bounds then.
+func Thorough() bool { return os.Getenv("VERIF_TIER") == "thorough" }
+
+// Pick returns a for the quick tier and b for the thorough tier.
+func Pick(a, b int) int {
+	if Thorough() {
+		return b
+	}
+	return a
 }
